@@ -9,6 +9,7 @@ mod sexp;
 mod util;
 mod wasm;
 mod wasm_gen;
+mod wasm_gen2;
 
 use std::fs::File;
 use std::io::{BufRead, BufReader, BufWriter, Write};
@@ -38,6 +39,11 @@ pub fn gen_case(slice: &str, rng: &mut Rng, thorough: bool) -> Vec<String> {
         "overlay" => kv::gen_overlay(rng, thorough),
         "views" => kv::gen_views(rng, thorough),
         "wasm" => wasm_gen::gen_wasm(rng, thorough),
+        "wasm-admin" => wasm_gen2::gen_admin(rng, thorough),
+        "wasm-codes" => wasm_gen2::gen_codes(rng, thorough),
+        "wasm-resp" => wasm_gen2::gen_resp(rng, thorough),
+        "wasm-iso" => wasm_gen2::gen_iso(rng, thorough),
+        "wasm-det" => wasm_gen2::gen_det(rng, thorough),
         _ => panic!("unknown slice {}", slice),
     }
 }
